@@ -92,8 +92,55 @@ fn second_key(r: &mut Rng, n: usize, tags: &mut Vec<String>) -> Vec<i64> {
     (0..n).map(|i| if neg && i == 0 { -1 - r.below(3) as i64 } else if i == n - 1 { top.max(0) } else { r.below((top.max(1)) as u64 + 1) as i64 }).collect()
 }
 
+/// Joins of tables that SHARE column names (ta, tb: id, k, fk, v; tc: id, k, k2, v) and self-joins through aliases, under an
+/// IN / NOT IN / EXISTS / NOT EXISTS subquery predicate on a QUALIFIED column of either join input.  After decorrelation a Semi/Anti
+/// join sits directly above the Inner/Cross join (or above a Filter over it); SemiJoinPushdown must pick the input the qualifier
+/// names, not the first one that has a column of that bare name.  `k` differs row by row between the tables, so filtering on the
+/// other table's column changes the answer.  Tag `shape:shared-name-semi`.
+pub fn gen_shared_semi(r: &mut Rng) -> (Vec<Tbl>, String, Vec<String>) {
+    let mut tags: Vec<String> = vec!["shape:shared-name-semi".into()];
+    let mk = |r: &mut Rng, name: &str, third: &str, n: usize, nullable: bool| -> Tbl {
+        let rows: Vec<Vec<i64>> = (0..n).map(|i| vec![i as i64 + 1, if nullable && r.chance(1, 6) { NULL } else { r.below(5) as i64 }, 1 + r.below(5) as i64, r.below(4) as i64]).collect();
+        Tbl::new(name, vec![("id".into(), CT::I64), ("k".into(), CT::I64), (third.into(), CT::I64), ("v".into(), CT::I64)], ints(&rows))
+    };
+    let nullable = r.chance(1, 3);
+    if nullable { tags.push("f:nullable_k".into()); }
+    let (na, nb, nc) = (1 + r.below(8) as usize, 1 + r.below(10) as usize, r.below(7) as usize);
+    let tables = vec![mk(r, "ta", "fk", na, nullable), mk(r, "tb", "fk", nb, nullable), mk(r, "tc", "k2", nc, false)];
+    // FROM clause, its join condition when it goes to WHERE, and the qualifiers of its inputs (left to right)
+    let (from, wjoin, quals, form): (&str, &str, Vec<&str>, &str) = match r.below(8) {
+        0 | 1 => ("ta a JOIN tb b ON a.id = b.fk", "", vec!["a", "b"], "join"),
+        2 => ("ta a, tb b", "a.id = b.fk", vec!["a", "b"], "comma"),
+        3 => ("ta a JOIN ta b ON a.id = b.fk", "", vec!["a", "b"], "selfjoin"),
+        4 => ("ta a CROSS JOIN tb b", "", vec!["a", "b"], "cross"),
+        5 => ("ta JOIN tb ON ta.id = tb.fk", "", vec!["ta", "tb"], "noalias"),
+        6 => ("ta a JOIN tb b ON a.id = b.fk JOIN tc c ON b.k = c.k2", "", vec!["a", "b", "c"], "three"),
+        _ => ("tb b JOIN ta a ON a.id = b.fk", "", vec!["b", "a"], "join_swapped"),
+    };
+    tags.push(format!("f:from_{}", form));
+    let side = r.below(quals.len() as u64) as usize;
+    let q = quals[side];
+    tags.push(format!("f:side_{}", if side == 0 { "left" } else { "right" }));
+    let col = *r.pick(&["k", "k", "k", "id", "v"]);
+    let sc = *r.pick(&["k2", "k", "k", "id"]);
+    let w = if r.chance(1, 3) { format!(" WHERE v >= {}", r.below(3)) } else { String::new() };
+    let pred = match r.below(6) {
+        0 | 1 => { tags.push("f:in".into()); format!("{}.{} IN (SELECT {} FROM tc{})", q, col, sc, w) }
+        2 => { tags.push("f:not_in".into()); format!("{}.{} NOT IN (SELECT id FROM tc{})", q, if nullable && col == "k" { "id" } else { col }, w) }
+        3 | 4 => { tags.push("f:exists".into()); format!("EXISTS (SELECT 1 FROM tc s WHERE s.{} = {}.{}{})", sc, q, col, if w.is_empty() { String::new() } else { format!(" AND s.v >= {}", r.below(3)) }) }
+        _ => { tags.push("f:not_exists".into()); format!("NOT EXISTS (SELECT 1 FROM tc s WHERE s.{} = {}.{})", sc, q, col) }
+    };
+    let mut conj: Vec<String> = vec![];
+    if !wjoin.is_empty() { conj.push(wjoin.into()); }
+    if r.chance(1, 3) { let o = quals[r.below(quals.len() as u64) as usize]; conj.push(format!("{}.v >= {}", o, r.below(3))); tags.push("f:extra_filter".into()); }
+    if r.chance(1, 2) { conj.push(pred); } else { conj.insert(0, pred); }
+    let proj: Vec<String> = quals.iter().enumerate().flat_map(|(i, q)| vec![format!("{}.id AS id{}", q, i), format!("{}.k AS k{}", q, i)]).collect();
+    let sql = format!("SELECT {} FROM {} WHERE {}", proj.join(", "), from, conj.join(" AND "));
+    (tables, sql, tags)
+}
+
 pub fn gen_adversarial(r: &mut Rng, layout: &str) -> Value {
-    let stream = *r.pick(&["gkr", "gkr", "gkr_join", "gkr_join", "left_count", "packjoin", "packjoin", "packjoin_shadow", "packgroup", "packgroup_shadow", "eager", "eager"]);
+    let stream = *r.pick(&["gkr", "gkr", "gkr_join", "gkr_join", "left_count", "packjoin", "packjoin", "packjoin_shadow", "packgroup", "packgroup_shadow", "eager", "eager", "shared_semi", "shared_semi"]);
     let mut tags: Vec<String> = vec![format!("s:{}", stream), format!("layout_{}", layout)];
     let mut tables: Vec<Tbl> = vec![];
     let mut neutral_tables: Option<Vec<Tbl>> = None;
@@ -234,6 +281,13 @@ pub fn gen_adversarial(r: &mut Rng, layout: &str) -> Value {
                 sql = "SELECT a, b, COUNT(*) AS n, SUM(v) AS sv FROM t GROUP BY a, b".into();
             }
         }
+        "shared_semi" => {
+            let (mut ts, q, t) = gen_shared_semi(r);
+            tags.extend(t);
+            for t in ts.iter_mut() { pq_opts(r, t, layout, &mut tags); }
+            tables.extend(ts);
+            sql = q;
+        }
         _ => {
             // eager: R has duplicated join keys (fanout), SUM of a product with one R factor
             let nr = 4 + r.below(16) as usize;
@@ -289,6 +343,8 @@ pub fn observe(provs: &Provs, sql: &str, with_plans: bool) -> Value {
                    Err(e) => { cfgs.insert(name.into(), err_json(e)); if with_plans { plans.insert(name.into(), err_json(e)); } } }
     };
     add("noopt", Ok(bound.clone()));
+    // subquery predicates are not executable before decorrelation: the reference is then the plan with ONLY SubqueryDecorrelation applied
+    if bound_dbg.contains("InSubquery") || bound_dbg.contains("Exists") || bound_dbg.contains("ScalarSubquery") { add("decorr", caught(&|| optimize(vec![rule_by_name("SubqueryDecorrelation").unwrap()], &none, bound.clone()))); }
     add("prod", caught(&|| optimize_production(&stats, bound.clone())));
     add("prod-stats", caught(&|| optimize_production(&none, bound.clone())));
     for rule in STATS_RULES { add(&format!("only:{}", rule), caught(&|| optimize(vec![rule_by_name(rule).unwrap()], &stats, bound.clone()))); }
